@@ -111,6 +111,19 @@ def check_roundtrip(case, ctx):
         must(sfile.write, fname, arg, delim=delim)
     elif e == "sfile_obj":
         def w():
+            if case["table"]["seed"] % 2:
+                # an SFile object that already wrote (and read) another file and is re-pointed with open()
+                decoy = ctx.tmpfile("decoy.rec")
+                sf = sfile.SFile(decoy, "w", delim=delim)
+                sf.write(arg[:1])
+                sf.close()
+                sf.open(decoy)
+                sf.read()
+                sf.close()
+                sf.open(fname, "w", delim=delim)
+                sf.write(arg)
+                sf.close()
+                return
             with sfile.SFile(fname, "w", delim=delim) as sf:
                 sf.write(arg)
         must(w)
